@@ -10,17 +10,24 @@ PROP = 'C01'
 COQ_TARGETS = ['theories/PrimFacts.vo', 'theories/PrimFloat.vo', 'theories/PrimObjFacts.vo']
 COQ_IMPORTS = 'From Coq Require Import String.\nFrom Bac Require Import Base Tag Prim PrimTables PrimObj.'
 TABLE_OBLIGATIONS = ['enums_bijective', 'enums_in_range', 'bitstrings_wf', 'unsigned_limits_std']
-RULE = ('cases: for each of the 13 primitive classes and every Enumerated/BitString/Unsigned subclass found by the translator: '
-        'integers +-{0,1,2} around 2^(8k), k=0..5, around +-2^31 and 2^32; bit strings of every length 0..64 (zero/one/alternating/random); '
-        'every enumeration name and number of every table plus unnamed numbers at 8-bit boundaries; object identifiers at all type/instance '
-        'boundaries plus random words; random octet/character strings (all encodings, valid and invalid UTF-16/32); floats from float.hex '
-        'literals (zeros, subnormals, max, RNE halfway cases, inf, NaN) and random patterns; dates/times over {0,1,127,128,254,255} and '
-        'out-of-octet fields; x {tag, application octets, context octets with numbers 0,1,14,15,16,254 (quick) / 0..254 (thorough)}; decode of '
-        'the produced octets and of malformed tags (wrong class/number/length).  non-trivial = the encoding has >= 1 content octet or the value '
-        'must be refused, or a decode that yields a value / is refused after looking at the data; distinct by (operation, class, input).  '
-        'Object life cycles: for every primitive class, histories on ONE object (construct, encode app/ctx, decode another tag into it, '
-        'assign, copy-construct, ObjectIdentifier.set_tuple/set_long/get_long, BitString.__setitem__, encode again), observation and state '
-        'compared after every call; non-trivial = history with >= 1 state change followed by an encode.')
+RULE = ('cases (in-kernel correspondence; quick ~10 k, thorough ~46 k): for each of the 13 primitive classes and every Enumerated/BitString/Unsigned '
+        'subclass found by the translator: integers +-{0,1,2} around 2^(8k), k=0..5, around +-2^31 and 2^32 plus random ones (100 / 300); bit strings of '
+        'every length 0..64 (zero/one/alternating/random); one whole-table case per enumeration class, plus (quick) 8 sampled values per class / '
+        '(thorough) every name and number of every table and unnamed numbers at 8-bit boundaries through encode, constructor and decode; object '
+        'identifiers at all type/instance boundaries plus random words (60 / 500); random octet/character strings (all charsets, valid and invalid '
+        'UTF-16/32); floats from float.hex literals (zeros, subnormals, max, RNE halfway cases, inf, NaN) and random patterns (30 / 140 seeds x 6 '
+        'neighbours); dates/times sampled from {0,1,127,128,254,255}^4 (80 / 400; the full grid is in the direct predicate) and out-of-octet fields; '
+        'x {tag, application octets, context octets}: context numbers {0,1,14,15,16,254} (quick); thorough sweeps every context number 0..254 (+255, 256 '
+        'refused) for a boundary subset of 24 values covering every class and content lengths 0..4/5/254, other values draw 1-2 random numbers from '
+        '0..256; decode of the produced octets (1500 / 5000 sampled) and of malformed tags (wrong class/number/length).  Object life cycles: for every '
+        'class, histories on ONE object (construct, encode app/ctx, decode another tag into it, assign, copy-construct, '
+        'ObjectIdentifier.set_tuple/set_long/get_long, BitString.__setitem__, encode again), observation and state compared after every call '
+        '(~600 / ~2200 histories).  non-trivial = the encoding has >= 1 content octet or the value must be refused, or a decode that yields a value / is '
+        'refused after looking at the data, or a history with >= 1 state change followed by an encode; distinct by (operation, class, input).  '
+        'direct predicate (implementation only; quick ~28 k, thorough ~720 k evaluations): every name and number of every enumeration table, every '
+        'bit-string length 0..64, the full 6^4 date/time grid, every context number 0..254 for 34 boundary values covering every class, integer grid + '
+        '400 / 20 000 random integers, 2 000 / 100 000 object identifiers, float pools, random strings, and 1 840 / 40 000 public-API life-cycle '
+        'histories; each value in application mode and 1-5 context numbers.')
 TRUSTED = ['model coq/theories/Prim.v written by hand after primitivedata.py Atomic classes and Tag.app_to_context/context_to_app; tie = correspondence',
            'gen/Enums.v: enumeration / bit-string / limit tables read from the imported classes by translator/enums.py',
            'round32/widen32 model C float<->double conversion as done by struct.pack/unpack(">f") on this platform (NaN quietening included); tied by correspondence on bit patterns',
@@ -536,7 +543,7 @@ def history_cases(rng, tier):
     quick = tier != 'thorough'
     out = []
     for k in KINDS:
-        reps = (2 if k in ('objid', 'chars', 'bits') else 1) if quick else 6
+        reps = (2 if k in ('objid', 'chars', 'bits') else 1) if quick else 3
         for _ in range(reps):
             specs = value_specs(rng, k) if k != 'enum' else []
             if k == 'enum':
@@ -547,7 +554,7 @@ def history_cases(rng, tier):
             # malformed / foreign tags to decode into a live object
             bad = [(0, KNUM[k], 0, b''), (1, KNUM[k], 1, b'\x00'), (0, (KNUM[k] + 1) % 13, 1, b'\x01'), (0, KNUM[k], 3, b'\x01\x02\x03')]
             for spec in specs:
-                for _ in range(5 if quick else 12):
+                for _ in range(5 if quick else 8):
                     ops = [('enc', None)]
                     for _ in range(rng.randrange(2, 6)):
                         r = rng.random()
@@ -653,8 +660,8 @@ OCT6 = [0, 1, 127, 128, 254, 255]
 
 def tuple4_pool(rng, quick):
     out = []
-    if quick:
-        for _ in range(80):
+    if quick in (True, 'sample'):
+        for _ in range(80 if quick is True else 400):
             out.append(tuple(rng.choice(OCT6) for _ in range(4)))
     else:
         for a in OCT6:
@@ -713,8 +720,15 @@ def cases(rng, tier):
             if c.expected[0] == 0:
                 produced.append((kspec_of(spec), bytes(c.expected[1:]), True))
 
-    # null, boolean: every context number
-    for spec in [('null',), ('bool', True), ('bool', False)]:
+    # null, boolean: every context number; thorough: also a boundary subset of values of every class
+    sweep = [('null',), ('bool', True), ('bool', False)]
+    if not quick:
+        sweep += [('unsigned', None, 0), ('unsigned', None, 256), ('unsigned', None, 2 ** 32 - 1), ('integer', -129), ('integer', 2 ** 31 - 1),
+                  ('real', d2b(1.5)), ('double', d2b(0.1)), ('octets', b''), ('octets', bytes(5)), ('octets', bytes(254)), ('chars', 0, b'abcd'),
+                  ('chars', 4, b'\x00\xe9'), ('bits', [], None), ('bits', [1] * 25, None), ('bits', [0, 1] * 16, None),
+                  ('enum', 'E_primitivedata_ObjectType', 'device'), ('enum', 'E_basetypes_SecurityLevel', 65536),
+                  ('date', (124, 2, 29, 4)), ('time', (23, 59, 59, 99)), ('objid', 'device', 4194303), ('objid', 1023, 0)]
+    for spec in sweep:
         all_modes(spec, nctx=len(ctxs))
     # context numbers beyond an octet are refused by Tag.encode
     for cx in (255, 256, 300):
@@ -723,9 +737,9 @@ def cases(rng, tier):
     # integers
     grid = int_grid()
     for z in grid:
-        all_modes(('unsigned', None, z), nctx=1 if quick else 3)
-        all_modes(('integer', z), nctx=1 if quick else 3)
-    for _ in range(100 if quick else 2000):
+        all_modes(('unsigned', None, z), nctx=1 if quick else 2)
+        all_modes(('integer', z), nctx=1 if quick else 2)
+    for _ in range(100 if quick else 300):
         z = rng.getrandbits(rng.choice([7, 8, 15, 16, 23, 24, 31, 32, 33]))
         all_modes(('unsigned', None, z))
         all_modes(('integer', rng.choice([z, -z])))
@@ -736,9 +750,9 @@ def cases(rng, tier):
     for z in [-1, 0, 255, 2 ** 32 - 1, 2 ** 32, 2 ** 40]:
         out.append(case_ctor('unsigned', None, z))
     # floats
-    for d in float_pool(rng, 30 if quick else 3000):
+    for d in float_pool(rng, 30 if quick else 140):
         all_modes(('real', d), nctx=1)
-    for d in float_pool(rng, 10 if quick else 300) + [rng.getrandbits(64) for _ in range(40 if quick else 2000)]:
+    for d in float_pool(rng, 10 if quick else 40) + [rng.getrandbits(64) for _ in range(40 if quick else 300)]:
         all_modes(('double', d), nctx=1)
     # octet strings / character strings
     for n in [0, 1, 2, 4, 5, 6, 253, 254, 255, 300] + ([] if quick else [65535, 65536]):
@@ -785,17 +799,18 @@ def cases(rng, tier):
     for v in [0, 5, 255, 256, 2 ** 32 - 1, 2 ** 32, -1, 'x']:
         out.append(case_enc(('enum', None, v)))
     # dates, times
-    for t in tuple4_pool(rng, quick):
+    for t in tuple4_pool(rng, True if quick else 'sample'):
         all_modes(('date', t))
         all_modes(('time', t))
     # object identifiers
-    for t, i in objid_pool(rng, 60 if quick else 5000):
+    for t, i in objid_pool(rng, 60 if quick else 500):
         all_modes(('objid', t, i))
         out.append(case_ctor('objid', None, (t, i)))
 
     # ---- decode what was produced (both modes), then malformed tags
-    if quick and len(produced) > 1500:
-        produced = rng.sample(produced, 1500)
+    cap = 1500 if quick else 5000
+    if len(produced) > cap:
+        produced = rng.sample(produced, cap)
     for kspec, octets, ctx in produced:
         out.append(case_wire(kspec, octets, ctx))
     for k in KINDS:
@@ -838,7 +853,7 @@ def cases(rng, tier):
             out.append(case_dec(('unsigned', None), (0, 2, ln, data), 'dec-int'))
     # real/double patterns straight to the decoder (widening, NaN quietening)
     for p in [0, 0x80000000, 1, 0x007fffff, 0x00800000, 0x7f7fffff, 0x7f800000, 0xff800000, 0x7fc00000, 0x7f800001, 0x7fa00000,
-              0xffc00001, 0x7fbfffff, 0x00400000, 0x00000002, 0x00000003, 0x80000001] + [rng.getrandbits(32) for _ in range(60 if quick else 3000)]:
+              0xffc00001, 0x7fbfffff, 0x00400000, 0x00000002, 0x00000003, 0x80000001] + [rng.getrandbits(32) for _ in range(60 if quick else 1000)]:
         out.append(case_dec(('real',), (0, 4, 4, p.to_bytes(4, 'big')), 'dec-real'))
     for _ in range(20):
         out.append(case_dec(('double',), (0, 5, 8, rand_bytes(rng, 8)), 'dec-real'))
@@ -1071,7 +1086,7 @@ def direct(rng, tier, focus=()):
     allctx = list(range(255))
 
     def ctxpick(k=2):
-        return allctx if not quick else sorted(set(rng.sample(allctx, k) + [rng.choice(CTX_QUICK)]))
+        return sorted(set(rng.sample(allctx, k if quick else 4) + [rng.choice(CTX_QUICK)]))
 
     def run(cls, kind, arg, ctxs=None, tbl=None):
         nonlocal n
@@ -1087,6 +1102,20 @@ def direct(rng, tier, focus=()):
     for arg, kind, cls in [(None, 'null', p.Null), (True, 'bool', p.Boolean), (False, 'bool', p.Boolean), (300, 'unsigned', p.Unsigned),
                            (-129, 'integer', p.Integer)]:
         run(cls, kind, arg, allctx)
+    # ... and for a boundary subset of the values of every class (content lengths 0..4, 5, 253/254 meet tag numbers 14/15/254)
+    ot_tbl = enum_values(p.ObjectType, rng)[1]
+    for arg, kind, cls, tbl in [(0, 'unsigned', p.Unsigned, None), (255, 'unsigned', p.Unsigned, None), (65536, 'unsigned', p.Unsigned, None),
+                                (2 ** 32 - 1, 'unsigned', p.Unsigned, None), (0, 'integer', p.Integer, None), (-2 ** 31, 'integer', p.Integer, None),
+                                (2 ** 31 - 1, 'integer', p.Integer, None), (1.5, 'real', p.Real, None), (float('inf'), 'real', p.Real, None),
+                                (0.1, 'double', p.Double, None), (b'', 'octets', p.OctetString, None), (bytes(4), 'octets', p.OctetString, None),
+                                (bytes(5), 'octets', p.OctetString, None), (bytes(253), 'octets', p.OctetString, None),
+                                (bytes(254), 'octets', p.OctetString, None), (bytes(65536), 'octets', p.OctetString, None),
+                                ('', 'chars', p.CharacterString, None), ('abc', 'chars', p.CharacterString, None), ('Grüße', 'chars', p.CharacterString, None),
+                                ('x' * 253, 'chars', p.CharacterString, None), ([], 'bits', p.BitString, None), ([1] * 24, 'bits', p.BitString, None),
+                                ([1, 0] * 16, 'bits', p.BitString, None), ('device', 'enum', p.ObjectType, ot_tbl), (70000, 'enum', p.ObjectType, ot_tbl),
+                                ((124, 2, 29, 4), 'date', p.Date, None), ((23, 59, 59, 99), 'time', p.Time, None),
+                                (('device', 4194303), 'objid', p.ObjectIdentifier, ot_tbl), ((1023, 0), 'objid', p.ObjectIdentifier, ot_tbl)]:
+        run(cls, kind, arg, allctx, tbl)
     grid = int_grid()
     more = [rng.getrandbits(rng.choice([7, 8, 9, 15, 16, 17, 23, 24, 25, 31, 32, 33])) for _ in range(400 if quick else 20000)]
     for z in grid + more:
@@ -1143,7 +1172,7 @@ def direct(rng, tier, focus=()):
         run(p.Date if ('-' in s or '/' in s) else p.Time, 'date' if ('-' in s or '/' in s) else 'time', s, [1])
     # object identifiers: boundaries and random words, tuple / string / int constructors
     ot = enum_values(p.ObjectType, rng)[1]
-    for t, i in objid_pool(rng, 2000 if quick else 200000):
+    for t, i in objid_pool(rng, 2000 if quick else 100000):
         run(p.ObjectIdentifier, 'objid', (t, i), [rng.choice(CTX_QUICK)], ot)
     for name, num in ot.items():
         run(p.ObjectIdentifier, 'objid', (name, rng.randrange(2 ** 22)), [2], ot)
@@ -1433,7 +1462,7 @@ def direct_histories(rng, tier):
     quick = tier != 'thorough'
     failures, n, nontriv = [], 0, 0
     for cls, kind, tbl in life_classes(rng):
-        for _ in range((200 if kind in ('objid', 'chars') else 80) if quick else 3000):
+        for _ in range((200 if kind in ('objid', 'chars') else 80) if quick else 2000):
             f, done, k = history_direct(rng, cls, kind, tbl, rng.randrange(3, 9))
             n += k
             if len(done) > 2:
